@@ -280,7 +280,80 @@ tasks:
   skipped: {command: ["echo never"], condition: "false"}
   beforefails: {command: ["echo never"], before: ["exit 2"]}
   allowed: {command: ["exit 4", "echo after"], allow_failure: true}
+  inter: {command: ["echo one"], interactive: true}
+  last: {command: ["echo three"]}
+pipelines:
+  mixed:
+    - task: succeeds
+    - task: skipped
+      depends_on: [succeeds]
+    - task: allowed
+    - task: last
+      depends_on: [skipped, allowed]
+  mixedfail:
+    - task: succeeds
+    - task: beforefails
+      depends_on: [succeeds]
+    - task: last
+      depends_on: [beforefails]
 `
+
+// several targets on one command line (one runner, one output layer): the outcome of one task must not disturb
+// the decoration of the next one; the exit status is that of the raw format
+func formatSequenceCase(col *Collector, dir string, format string, targets []string) {
+	args := append([]string{"-c", filepath.Join(dir, "fmt.yaml"), "--output", format}, targets...)
+	res := runTaskctl(dir, nil, 30*time.Second, args...)
+	cs := Case{Tags: []string{"format-sequence", "format=" + format}, NonTrivial: true, Replay: "taskctl " + strings.Join(args[2:], " ")}
+	prints := map[string]string{"succeeds": "fine", "fails": "bad", "allowed": "after", "last": "three", "inter": "one"}
+	wantExit := 0
+	var executed []string
+	for _, t := range targets {
+		switch t {
+		case "mixed":
+			executed = append(executed, "succeeds", "allowed", "last")
+		case "mixedfail":
+			executed = append(executed, "succeeds")
+			wantExit = 1
+		default:
+			executed = append(executed, t)
+			if t == "fails" || t == "beforefails" {
+				wantExit = 1
+			}
+		}
+		if wantExit != 0 {
+			break
+		}
+	}
+	cs.Impl = fmt.Sprintf("exit=%d", res.exit)
+	switch {
+	case res.timedOut:
+		cs.Fail, cs.Sig = "did not finish within 30s", "c19-format-hang"
+	case res.panicked || (res.exit != 0 && res.exit != 1):
+		cs.Fail, cs.Sig = fmt.Sprintf("output layer crashed (exit %d): %s", res.exit, clipStr(firstPanicLine(res.stderr), 160)), "c19-format-crash"
+	case res.exit != wantExit:
+		cs.Fail, cs.Sig = fmt.Sprintf("exit status %d under --output %s, expected %d as under the other formats", res.exit, format, wantExit), "c19-format-dependent-result"
+	default:
+		for _, t := range executed {
+			text, ok := prints[t]
+			if !ok || format == "cockpit" {
+				continue
+			}
+			prefixed := t + "\x1b[0m: " + text
+			switch {
+			case !strings.Contains(res.stdout, text):
+				cs.Fail, cs.Sig = fmt.Sprintf("the output %q of task %s is missing under --output %s", text, t, format), "c19-sequence-lost"
+			case format == "prefixed" && t != "inter" && !strings.Contains(res.stdout, prefixed):
+				cs.Fail, cs.Sig = fmt.Sprintf("under --output prefixed the line %q of task %s does not carry its task name", text, t), "c19-sequence-no-prefix"
+			case format == "raw" && strings.Contains(res.stdout, prefixed):
+				cs.Fail, cs.Sig = fmt.Sprintf("under --output raw the line %q of task %s is decorated", text, t), "c19-sequence-decorated"
+			}
+			if cs.Fail != "" {
+				break
+			}
+		}
+	}
+	col.Add(cs)
+}
 
 func runC19(col *Collector, tier string, seed int64) {
 	rng := rand.New(rand.NewSource(seed))
@@ -336,4 +409,17 @@ func runC19(col *Collector, tier string, seed int64) {
 		}
 	}
 	parallel(len(jobs), 8, func(i int) { formatOutcomeCase(col, dir, jobs[i][0], jobs[i][1]) })
+	seqs := [][]string{{"succeeds", "skipped"}, {"succeeds", "skipped", "last"}, {"succeeds", "beforefails"}, {"skipped", "succeeds"}, {"allowed", "skipped", "last"},
+		{"inter", "last"}, {"succeeds", "inter", "last"}, {"inter", "succeeds", "skipped", "last"}, {"mixed"}, {"mixedfail"}, {"succeeds", "mixed"}, {"mixed", "last"}, {"succeeds", "fails", "last"}}
+	type sj struct {
+		f string
+		t []string
+	}
+	var sjobs []sj
+	for _, f := range []string{"raw", "prefixed", "cockpit"} {
+		for _, t := range seqs {
+			sjobs = append(sjobs, sj{f, t})
+		}
+	}
+	parallel(len(sjobs), 8, func(i int) { formatSequenceCase(col, dir, sjobs[i].f, sjobs[i].t) })
 }
